@@ -100,7 +100,7 @@ spec("C06", "Emitted code is valid Python",
      not_decided="behaviour of the executed artefacts, identifier validity of type strings, values of defaults")
 
 spec("C07", "Parsing faithful to Python's view",
-     [lambda prog, rep, tier: D.rule_det1(prog, rep, tier, scope=prog.reachable([prog.fn("parse.function"), prog.fn("parse.class_"), prog.fn("parse._merge_inner_function")]), accepted=DET1_ACCEPTED),
+     [lambda prog, rep, tier: D.rule_det1(prog, rep, tier, scope=prog.reachable([prog.fn("parse.function"), prog.fn("parse.class_")]), accepted=DET1_ACCEPTED),
       A.rule_align_parse, O.rule_sigcover],
      "Necessary conditions: (DET-1) on the parse path no iteration order of an unordered collection reaches the parameter mapping (order independent of run-to-run "
      "variation); (ALIGN-parse) signature defaults stay aligned with their arguments; (SIGCOVER) args, kwonlyargs and **kwarg each reach the result on some read that "
